@@ -39,3 +39,21 @@ open Tins.Wire.App
 #print axioms vxlan_reparse
 #print axioms stp_reparse
 #print axioms bootp_reparse
+-- C04
+#print axioms findOpt_append
+#print axioms findOpt_erase_other
+#print axioms classData_encClassData
+#print axioms decUserClass_enc
+#print axioms decVendorClass_enc
+#print axioms decU8_enc
+#print axioms decU16_enc
+#print axioms decIp6_enc
+#print axioms decStatus_enc
+#print axioms decDuid_enc
+#print axioms decVendorInfo_enc
+#print axioms decIaTa_enc
+#print axioms dhcp_type_roundtrip
+#print axioms dhcp_u32_roundtrip
+#print axioms dhcp_ip_roundtrip
+#print axioms dhcp_str_roundtrip
+#print axioms dhcp_first_match_wins
